@@ -227,6 +227,8 @@ impl<'a> Gen<'a> {
             3 => self.r.range(2, 9) as i128,
             4 => 1_000_000 + self.r.below(5_000_000) as i128,
             5 => self.r.i128_bits(70),
+            // the ends of the i128 range: sums and negations of these leave it
+            6 if self.r.chance(1, 3) => *self.r.pick(&[i128::MAX, i128::MIN, i128::MAX - 1, i128::MIN + 1, 1i128 << 126, -(1i128 << 126)]),
             _ => self.r.range(0, 2000) as i128,
         }
     }
@@ -429,7 +431,11 @@ impl<'a> Gen<'a> {
             1 => E::Map(vec![(self.any(d - 1), self.any(d - 1))]),
             2 => E::Tuple(Box::new((self.any(d - 1), self.any(d - 1)))),
             3 => E::Struct(tir::StructExpr { constructor: self.r.below(200) as usize, fields: vec![self.any(d - 1)] }),
-            4 => E::Assets(vec![tir::AssetExpr { policy: self.any(d - 1), asset_name: self.any(d - 1), amount: self.int(d - 1) }]),
+            4 => {
+                // the amount of a decoded IR need not be a number
+                let amount = if self.r.chance(1, 3) { self.any(d - 1) } else { self.int(d - 1) };
+                E::Assets(vec![tir::AssetExpr { policy: self.any(d - 1), asset_name: self.any(d - 1), amount }])
+            }
             5 => {
                 // Param::Set holds what apply_args puts there: a constant argument value
                 let v = match self.r.below(3) {
@@ -450,6 +456,7 @@ impl<'a> Gen<'a> {
             14 => bx(tir::CompilerOp::ComputeSlotToTime(self.any(d - 1))),
             15 => bx(tir::Coerce::NoOp(self.any(d - 1))),
             16 => bx(tir::Coerce::IntoAssets(self.any(d - 1))),
+            17 if self.r.chance(1, 4) => bx(tir::Coerce::IntoScript(self.any(d - 1))),
             17 => bx(tir::Coerce::IntoDatum(self.any(d - 1))),
             18 => E::AdHocDirective(Box::new(tir::AdHocDirective {
                 name: "x".into(),
